@@ -60,6 +60,20 @@ class Closure:
     def __init__(self, node, env): self.node, self.env = node, env
 
 
+class RangeV:
+    """A `lo..hi` / `lo..=hi` value with integer bounds (possibly case distinctions of literals)."""
+    def __init__(self, lo, hi, inclusive): self.lo, self.hi, self.inclusive = lo, hi, inclusive
+
+
+def const_leaves(t):
+    """Integer literals an Ite-tree of literals can evaluate to; None if the term is anything else."""
+    if tm.is_const(t): return {t.args[0]}
+    if isinstance(t, T) and t.op == "ite":
+        a, b = const_leaves(t.args[1]), const_leaves(t.args[2])
+        return None if a is None or b is None else a | b
+    return None
+
+
 class SymArr:
     """Array/slice indexed by symbolic terms: equal index terms give the same element, different index terms give
     unrelated elements (sound: nothing is assumed about them)."""
@@ -100,6 +114,8 @@ def merge(c, a, b):
         return Enum(a.name, a.variants, Ite(c, a.tag, b.tag))
     if isinstance(a, Res) and isinstance(b, Res): return Res(Ite(c, a.ok, b.ok))
     if isinstance(a, Mat) and isinstance(b, Mat): return Mat([merge(c, x, y) for x, y in zip(a.cols, b.cols)])
+    if isinstance(a, RangeV) and isinstance(b, RangeV) and a.inclusive == b.inclusive:
+        return RangeV(Ite(c, a.lo, b.lo), Ite(c, a.hi, b.hi), a.inclusive)
     if a is None: return b
     if b is None: return a
     if isinstance(a, Closure) and isinstance(b, Closure) and a.node is b.node: return a
@@ -648,17 +664,35 @@ class Interp:
         env.pc = FALSE
         return None
 
+    def ev_range(self, env, n):
+        if n.get("lo") is None or n.get("hi") is None: raise Unsupported("open range")
+        return RangeV(self.ev(env, n["lo"]), self.ev(env, n["hi"]), bool(n["inclusive"]))
+
     def ev_for(self, env, n):
-        r = n["e"]
-        if r["k"] == "paren": r = r["e"]
-        if r["k"] != "range": raise Unsupported("for over non-range")
-        lo, hi = self.ev(env, r["lo"]), self.ev(env, r["hi"])
-        if not (tm.is_const(lo) and tm.is_const(hi)): raise Unsupported("for with symbolic bounds")
-        hi_v = hi.args[0] + (1 if r["inclusive"] else 0)
+        r = self.ev(env, n["e"])
+        if not isinstance(r, RangeV): raise Unsupported("for over non-range")
         if n["pat"]["k"] not in ("pident", "pwild"): raise Unsupported("for pattern")
-        for i in range(lo.args[0], hi_v):
-            if n["pat"]["k"] == "pident": env.vars[n["pat"]["name"]] = Const(i, "Int", "usize")
-            self.exec_block(env, n["body"])
+        lo, hi = r.lo, r.hi
+        if tm.is_const(lo) and tm.is_const(hi):
+            hi_v = hi.args[0] + (1 if r.inclusive else 0)
+            for i in range(lo.args[0], hi_v):
+                if n["pat"]["k"] == "pident": env.vars[n["pat"]["name"]] = Const(i, "Int", "usize")
+                self.exec_block(env, n["body"])
+            return UNIT
+        # bounds that are case distinctions of literals: iterate over the hull, each iteration guarded by lo <= i (<|<=) hi
+        ll, hl = const_leaves(lo), const_leaves(hi)
+        if ll is None or hl is None: raise Unsupported("for with symbolic bounds")
+        for i in range(min(ll), max(hl) + (1 if r.inclusive else 0)):
+            ci = Const(i, "Int", "usize")
+            c = And(Le(lo, ci), Le(ci, hi) if r.inclusive else Lt(ci, hi))
+            ea = env.fork(And(env.pc, c))
+            if n["pat"]["k"] == "pident": ea.vars[n["pat"]["name"]] = ci
+            self.exec_block(ea, n["body"])
+            if n["pat"]["k"] == "pident":
+                if n["pat"]["name"] in env.vars: ea.vars[n["pat"]["name"]] = env.vars[n["pat"]["name"]]
+                else: ea.vars.pop(n["pat"]["name"], None)
+            eb = env.fork(And(env.pc, Not(c)))
+            self.join(env, c, ea, UNIT, eb, UNIT)
         return UNIT
 
     def ev_closure(self, env, n): return Closure(n, env)
@@ -777,6 +811,7 @@ class Interp:
                 sub = env.fork(And(env.pc, recv.some))
                 return Opt(recv.some, self.call_closure(sub, cl, [recv.val]))
         args = [self.ev(env, a) for a in n["args"]]
+        if isinstance(recv, RangeV) and m == "clone": return recv
         if isinstance(recv, Vec): return self.vec_method(env, n, recv, m, args)
         if isinstance(recv, Mat):
             if m == "determinant":
@@ -787,6 +822,8 @@ class Interp:
         if isinstance(recv, SymArr):
             if m == "len" and recv.length is not None: return recv.length
             if m in ("clone", "to_vec", "iter", "as_ref"): return recv
+            con = self.ctx.contracts.get("[]::" + m)
+            if con is not None: return con(self, env, n, [recv] + args)
         if isinstance(recv, Arr):
             if m == "len":
                 return recv.length if recv.length is not None else Const(len(recv.e), "Int", "usize")
